@@ -201,6 +201,45 @@ fn compare(o: &mut CompOutcome, e: &Eng, ctx: &str, deep: bool) -> bool {
             }
         }
     }
+    // the same reads through an asynchronous-capable context while the storage answers
+    // "temporarily unavailable": a read that needs any stable entry must report exactly that, a
+    // read that lies in the unstable part must still be answered like the model
+    let stable_last = e.store.with(|s| s.vol.last_index());
+    for lo in m.first()..=m.last() + 1 {
+        for hi in lo..=m.last() + 1 {
+            if hi == lo {
+                continue;
+            }
+            e.store.with_mut(|s| s.fetch_unavailable = 1);
+            let got = log.slice(lo, hi, None, GetEntriesContext::empty(true));
+            let consulted = e.store.with_mut(|s| {
+                let c = s.fetch_unavailable == 0;
+                s.fetch_unavailable = 0;
+                s.pending_fetch.clear();
+                c
+            });
+            o.ops += 1;
+            o.stats.inc("c14.async_unavailable_reads");
+            let needs_stable = lo <= stable_last.min(log.unstable.offset.saturating_sub(1));
+            let wantv = m.range(lo, hi);
+            match (&got, needs_stable) {
+                (Err(raft::Error::Store(raft::StorageError::LogTemporarilyUnavailable)), true) => {}
+                (Ok(v), false) if *v == wantv && !consulted => {}
+                _ => {
+                    bad!(
+                        "async-read-wrong",
+                        "slice({}, {}) with an async context while storage is temporarily unavailable (stable part ends at {}, unstable starts at {}) = {:?}, expected {}",
+                        lo,
+                        hi,
+                        stable_last,
+                        log.unstable.offset,
+                        got.as_ref().map(|v| v.iter().map(|e| e.index).collect::<Vec<_>>()).map_err(|e| format!("{:?}", e)),
+                        if needs_stable { "Err(LogTemporarilyUnavailable)".to_string() } else { format!("indexes {:?}", wantv.iter().map(|e| e.index).collect::<Vec<_>>()) }
+                    );
+                }
+            }
+        }
+    }
     // find_conflict_by_term
     for i in m.first().saturating_sub(1)..=m.last() {
         for t in 0..=m.last_term() + 1 {
